@@ -1231,3 +1231,269 @@ def block_flag(check: Check, repo: Repo, rule: str = "BLOCK-FLAG") -> None:
         ok = test is not None and atoms == {f"{pname}.block"}
         check.ob(rule, c, "print_block_string selected by node.block only", ok,
                  f"test `{unparse(test)}`" if ok else f"selection depends on {sorted(atoms)} (test `{unparse(test) if test is not None else 'none'}`)")
+
+
+# -- C11: enter/leave fallback, iteration-local variables, removed single children ------------------
+
+
+def enter_leave_table(check: Check, repo: Repo, rule: str = "ENTER-LEAVE-TABLE") -> None:
+    check.rule(
+        rule,
+        "Visitor.get_enter_leave_for_kind, folded over the 16 combinations of {enter_<kind>, leave_<kind>, "
+        "enter, leave} being defined or not (the getattr calls are answered from a table, nothing is run): "
+        "the enter handler is enter_<kind> if defined, else the generic enter - independently of the leave "
+        "side, and symmetrically for leave; a visitor with a generic pair and one kind-specific handler must "
+        "still be called in the other direction",
+    )
+    fn = repo.func("language.visitor", "Visitor.get_enter_leave_for_kind")
+    mod = repo.mod("language.visitor")
+    handler = next((h for t in fn.body if isinstance(t, ast.Try) for h in t.handlers), None)
+    if handler is None:
+        raise AnalysisError("get_enter_leave_for_kind: except-arm that computes the pair not found")
+    stmts = []
+    result_expr = None
+    for s in handler.body:
+        if isinstance(s, ast.Assign) and isinstance(s.value, ast.Call) and call_name(s.value) == "EnterLeaveVisitor":
+            result_expr = s.value
+            break
+        if isinstance(s, ast.Return) and isinstance(s.value, ast.Call) and call_name(s.value) == "EnterLeaveVisitor":
+            result_expr = s.value
+            break
+        stmts.append(s)
+    if result_expr is None:
+        raise AnalysisError("get_enter_leave_for_kind: EnterLeaveVisitor(...) construction not found")
+    import itertools
+
+    bad = []
+    n = 0
+    for ek, lk, e, l in itertools.product((False, True), repeat=4):
+        have = {"enter_k": "EK" if ek else None, "leave_k": "LK" if lk else None, "enter": "E" if e else None, "leave": "L" if l else None}
+        ev = Evaluator(repo, mod, {
+            "kind": "k",
+            "self": "SELF",
+            "getattr": lambda _o, name, default=None, have=have: have.get(name, default),
+            "EnterLeaveVisitor": lambda a, b: (a, b),
+        })
+        try:
+            r = ev._exec_block(stmts)
+            if r is Evaluator._NoReturn:
+                r = ev.eval(result_expr)
+        except NotStatic as ex:
+            raise AnalysisError(f"get_enter_leave_for_kind is no longer foldable: {ex}") from ex
+        want = (have["enter_k"] or have["enter"], have["leave_k"] or have["leave"])
+        n += 1
+        if r != want:
+            bad.append((have, r, want))
+    check.ob(rule, fn, "get_enter_leave_for_kind: 16 combinations of defined handlers", not bad,
+             "all 16 cells: (enter_<kind> or enter, leave_<kind> or leave)" if not bad else
+             "; ".join(f"with {[k for k, v in h.items() if v]} defined the pair is {r}, expected {w}" for h, r, w in bad[:3]))
+
+
+ITERATION_LOCAL = {
+    # function -> names that every iteration of its main loop assigns before reading (confirmed by reading
+    # visit(): they describe the node in hand, never the previous one)
+    ("language.visitor", "visit"): ("result", "is_leaving", "is_edited", "enter_leave", "visit_fn"),
+}
+
+
+def iteration_local(check: Check, repo: Repo, rule: str = "ITERATION-LOCAL") -> None:
+    check.rule(
+        rule,
+        "in visit() the per-node variables (result, is_leaving, is_edited, enter_leave, visit_fn) are "
+        "assigned on every path from the head of the traversal loop to each of their reads: a read that can "
+        "be reached from the loop head without passing an assignment sees the value of the *previous* node "
+        "(a replacement returned for one node would be recorded - or lost - for the next)",
+    )
+    for (mn, q), names in ITERATION_LOCAL.items():
+        fn = repo.func(mn, q)
+        loops = [s for s in fn.body if isinstance(s, ast.While)]
+        if len(loops) != 1:
+            raise AnalysisError(f"{q}: main loop not found")
+        loop = loops[0]
+        cfg = CFG(fn)
+        head = cfg.nodes_of(loop)[0]
+        for name in names:
+            defs = {nd for nd in cfg.nodes if nd.ast is not None and nd.kind in ("stmt", "for", "with") and _assigns(nd.ast, name)
+                    and any(x is nd.ast for x in ast.walk(loop))}
+            reads = [x for x in ast.walk(loop) if isinstance(x, ast.Name) and x.id == name and isinstance(x.ctx, ast.Load)]
+            if not reads:
+                check.ob(rule, loop, f"{q}: `{name}` per iteration", True, "not read in the loop", nontrivial=False)
+                continue
+            stale = None
+            for r in reads:
+                goals = set(cfg.node_for_expr(r))
+                path = cfg.find_path(head, lambda nd: nd in goals, avoid=lambda nd: nd in defs)
+                if path:
+                    stale = (r, path)
+                    break
+            check.ob(rule, loop, f"{q}: `{name}` is assigned before it is read in every iteration", stale is None,
+                     f"{len(reads)} reads, each dominated by an assignment inside the iteration" if stale is None else
+                     f"read at line {stale[0].lineno} is reachable from the loop head without an assignment: " + cfg.describe_path(stale[1])[-200:])
+
+
+def _assigns(stmt: ast.AST, name: str) -> bool:
+    targets: list[ast.AST] = []
+    if isinstance(stmt, ast.Assign):
+        targets = list(stmt.targets)
+    elif isinstance(stmt, (ast.AnnAssign, ast.AugAssign)):
+        targets = [stmt.target]
+    elif isinstance(stmt, (ast.For, ast.AsyncFor)):
+        targets = [stmt.target]
+    for t in targets:
+        for x in ast.walk(t):
+            if isinstance(x, ast.Name) and x.id == name:
+                return True
+    return False
+
+
+def removed_child_is_none(check: Check, repo: Repo, rule: str = "EDIT-SENTINEL") -> None:
+    """Clause of EDIT-SENTINEL: in the node arm a removed child becomes None, it is not dropped from the kwargs."""
+    fn = repo.func("language.visitor", "visit")
+    edited = [n for n in walk_body(fn) if isinstance(n, ast.If) and unparse(n.test) == "is_edited"]
+    arms_if = [s for s in edited[0].body if isinstance(s, ast.If) and unparse(s.test) == "in_array"] if edited else []
+    if len(arms_if) != 1:
+        raise AnalysisError("visit(): in_array arms of the edit application not found")
+    body = arms_if[0].orelse
+    loops = [l for s in body for l in ast.walk(s) if isinstance(l, ast.For) and "edits" in unparse(l.iter)]
+    if not loops:
+        raise AnalysisError("visit(): node arm does not iterate the edits")
+    for lp in loops:
+        key = unparse(lp.target.elts[0]) if isinstance(lp.target, ast.Tuple) else None
+        stores = [s for s in ast.walk(lp) if isinstance(s, ast.Assign) and isinstance(s.targets[0], ast.Subscript) and unparse(s.targets[0].slice) == key]
+        removals = [c for c in ast.walk(lp) if (isinstance(c, ast.Call) and isinstance(c.func, ast.Attribute) and c.func.attr in ("pop", "__delitem__"))
+                    or isinstance(c, ast.Delete)]
+        # must-store: every path through the loop body stores values[edit_key]
+        unconditional = any(s in lp.body for s in stores) or (
+            len(lp.body) == 1 and isinstance(lp.body[0], ast.If) and lp.body[0].orelse
+            and any(s in lp.body[0].body for s in stores) and any(s in lp.body[0].orelse for s in stores))
+        ok = unconditional and not removals
+        check.ob(rule, lp, "node arm: every recorded edit is stored under its key (REMOVE as None)", ok,
+                 "values[edit_key] is assigned on every path; no key is deleted" if ok else
+                 ("a removed child is deleted from the constructor arguments instead of being set to None: a required field then has no value "
+                  "and rebuilding the node raises TypeError" if removals else "an edit may leave the key untouched"))
+
+
+# -- C09: stripping always lexes; the hex digit table ---------------------------------------------------
+
+
+def strip_always_lexes(check: Check, repo: Repo, rule: str = "STRIP-LEXES") -> None:
+    check.rule(
+        rule,
+        "strip_ignored_characters returns only text it assembled from the token stream: every return value "
+        "is the accumulator that the lexing loop (`while lexer.advance().kind != TokenKind.EOF`) fills, and "
+        "no return precedes that loop - a shortcut that hands back the input unseen also hands back sources "
+        "that do not lex ('rejected before and after' fails)",
+    )
+    fn = repo.func("utilities.strip_ignored_characters", "strip_ignored_characters")
+    loops = [w for w in fn.body if isinstance(w, ast.While) and "advance()" in unparse(w.test)]
+    if len(loops) != 1:
+        raise AnalysisError("strip_ignored_characters: lexing loop not found at function level")
+    loop = loops[0]
+    acc = {
+        unparse(s.target) for s in ast.walk(loop) if isinstance(s, ast.AugAssign) and isinstance(s.op, ast.Add)
+    }
+    rets = [r for r in walk_body(fn) if isinstance(r, ast.Return)]
+    for r in rets:
+        early = r.lineno < loop.lineno
+        from_tokens = r.value is not None and unparse(r.value) in acc
+        ok = not early and from_tokens
+        check.ob(rule, r, f"return {unparse(r.value) if r.value is not None else ''}".strip(), ok,
+                 "the accumulator filled by the lexing loop" if ok else
+                 ("returns before the source has been lexed" if early else "returns something else than the text assembled from tokens"))
+    check.ob(rule, loop, "lexing loop runs to EOF", "TokenKind.EOF" in unparse(loop.test), unparse(loop.test))
+
+
+def hex_digit_table(check: Check, repo: Repo, rule: str = "HEX-TABLE") -> None:
+    check.rule(
+        rule,
+        "read_hex_digit, folded over every ASCII character and a few non-ASCII digits/letters (constant "
+        "evaluation of a pure function): '0'-'9' -> 0-9, 'A'-'F' and 'a'-'f' -> 10-15, everything else -> -1; "
+        "read_16_bit_hex_code combines four digits as d0<<12 | d1<<8 | d2<<4 | d3",
+    )
+    fn = repo.func("language.lexer", "read_hex_digit")
+    mod = repo.mod("language.lexer")
+    probes = [chr(i) for i in range(0x20, 0x7F)] + ["", "١", "Ａ", "é", "Ⅷ"]
+    bad = []
+    for c in probes:
+        try:
+            got = Evaluator(repo, mod).call_function(mod, fn, [c], {})
+        except NotStatic as ex:
+            raise AnalysisError(f"read_hex_digit is no longer foldable: {ex}") from ex
+        want = int(c, 16) if len(c) == 1 and c in "0123456789abcdefABCDEF" else -1
+        if got != want:
+            bad.append((c, got, want))
+    check.ob(rule, fn, f"read_hex_digit over {len(probes)} characters", not bad,
+             "agrees with the hexadecimal digit values" if not bad else
+             "; ".join(f"{c!r} -> {g} (expected {w})" for c, g, w in bad[:5]))
+    f16 = repo.func("language.lexer", "read_16_bit_hex_code")
+    txt = " ".join(unparse(r.value) for r in walk_body(f16) if isinstance(r, ast.Return) and r.value is not None)
+    ok = all(s in txt for s in ("<< 12", "<< 8", "<< 4")) and txt.count("read_hex_digit") == 4
+    check.ob(rule, f16, "read_16_bit_hex_code combines four digits", ok, txt[:120])
+
+
+# -- C08: nothing rewrites the printed text; print_string escapes by its table only; fields are not compared
+
+
+def print_direct(check: Check, repo: Repo, rule: str = "PRINT-DIRECT") -> None:
+    check.rule(
+        rule,
+        "the printed document is exactly what the leave_<kind> methods assemble: print_ast returns the "
+        "result of visit(ast, PrintAstVisitor()) itself, with no string/regex operation applied to the whole "
+        "text afterwards (such an operation cannot tell layout from the content of a block string); and "
+        "print_string's result is the quotes around s.translate(escape_sequences) - the table is the only "
+        "place where characters are rewritten (a second, per-character escape writes \\uXXXXX for "
+        "supplementary-plane characters, which the lexer reads as a 4-digit escape plus a digit)",
+    )
+    fn = repo.func("language.printer", "print_ast")
+    rets = [r for r in walk_body(fn) if isinstance(r, ast.Return) and r.value is not None]
+    for r in rets:
+        v = r.value
+        ok = isinstance(v, ast.Call) and call_name(v) == "visit" and len(v.args) == 2 and "PrintAstVisitor" in unparse(v.args[1])
+        check.ob(rule, r, f"print_ast: return {node_text(v, 60)}", ok,
+                 "the visitor's result, unmodified" if ok else "the visitor's result is post-processed as a whole string")
+    ps = repo.func("language.print_string", "print_string")
+    rets = [r for r in walk_body(ps) if isinstance(r, ast.Return) and r.value is not None]
+    rewrites = [
+        n for n in walk_body(ps)
+        if isinstance(n, (ast.ListComp, ast.GeneratorExp, ast.For))
+        or (isinstance(n, ast.Call) and isinstance(n.func, ast.Attribute) and n.func.attr in ("replace", "sub", "join", "encode"))
+    ]
+    translates = [c for c in walk_body(ps) if isinstance(c, ast.Call) and isinstance(c.func, ast.Attribute) and c.func.attr == "translate"
+                  and c.args and unparse(c.args[0]) == "escape_sequences"]
+    ok = bool(translates) and not rewrites and len(rets) == 1
+    check.ob(rule, ps, "print_string: the escape table is the only rewriting step", ok,
+             "s.translate(escape_sequences) between quotes" if ok else
+             (f"additional character rewriting: {node_text(rewrites[0], 70)}" if rewrites else "translate(escape_sequences) not found"))
+
+
+def printer_no_cross_compare(check: Check, repo: Repo, model: AstModel, rule: str = "PRINTER-FIELDS-INDEPENDENT") -> None:
+    check.rule(
+        rule,
+        "a leave_<kind> method formats each field of the node on its own: no comparison has fields of the "
+        "node on both sides (`node.alias == node.name`): printing one field differently depending on "
+        "another field's value prints two structurally different nodes (alias 'user' on field 'user' vs no "
+        "alias) to the same text",
+    )
+    cls = repo.cls("language.printer", "PrintAstVisitor")
+    n = 0
+    for m in cls.body:
+        if not (isinstance(m, (ast.FunctionDef, ast.AsyncFunctionDef)) and m.name.startswith("leave_")):
+            continue
+        params = [a.arg for a in m.args.posonlyargs + m.args.args]
+        is_static = any(unparse(d) == "staticmethod" for d in m.decorator_list)
+        pname = params[0] if is_static else (params[1] if len(params) > 1 else None)
+        if pname is None:
+            continue
+        deps = _local_deps(m, pname)
+        bad = []
+        for c in walk_body(m):
+            if isinstance(c, ast.Compare) and len(c.ops) == 1 and isinstance(c.ops[0], (ast.Eq, ast.NotEq, ast.Is, ast.IsNot)):
+                lf = _expr_fields(c.left, pname, deps)
+                rf = _expr_fields(c.comparators[0], pname, deps)
+                if lf and rf and lf != rf:
+                    bad.append(c)
+        n += 1
+        check.ob(rule, m, f"{m.name}: no field-against-field comparison", not bad,
+                 "fields are formatted independently" if not bad else f"`{unparse(bad[0])}` makes the text of one field depend on another field",
+                 nontrivial=bool(bad))
+    check.floor(rule, 45, "leave_<kind> methods")
